@@ -69,7 +69,8 @@ Definition fmin (x y : fl) : fl :=
 Definition cast_wrap (signed : bool) (x : fl) : fl :=
   match to_Z x with
   | None => fof_Z 0
-  | Some v => fof_Z (if signed then (v + 128) mod 256 - 128 else v mod 256)
+  | Some v => if 2147483648 <=? Z.abs v then fof_Z 0
+              else fof_Z (if signed then (v + 128) mod 256 - 128 else v mod 256)
   end.
 
 (* conversion to a narrower float format (p2, e2) and back, saturating nothing (IEEE overflow to inf) *)
@@ -132,8 +133,10 @@ Definition cast_storage (s : storage) (x : fl) : fl :=
 (* the byte actually stored *)
 Definition code_byte (s : storage) (x : fl) : Z :=
   match s with
-  | SInt8 => match to_Z prec emax x with Some v => (v + 128) mod 256 - 128 | None => 0 end
-  | SUInt8 => match to_Z prec emax x with Some v => v mod 256 | None => 0 end
+  | SInt8 => match to_Z prec emax x with
+             | Some v => if 2147483648 <=? Z.abs v then 0 else (v + 128) mod 256 - 128 | None => 0 end
+  | SUInt8 => match to_Z prec emax x with
+              | Some v => if 2147483648 <=? Z.abs v then 0 else v mod 256 | None => 0 end
   | SE5M2 => to_bits 3 16 5 (narrow prec emax 3 16 Hp3 Hpe3 0 x)
   | SE4M3 => e4m3_to_bits (narrow prec emax 4 9 Hp4 Hpe4 (-1) x)
   end.
